@@ -20,87 +20,88 @@ def stepOrderRx (name : String) : Option Int :=
 def deliveredOf (k : Key) (s : AState) : List FBundle := s.delivered.filter (hasKey k)
 def pendingOf (k : Key) (s : AState) : List FBundle := s.pending.filter (hasKey k)
 
-/-- distinct fragments of `k` in the history never share an offset (they may overlap otherwise) -/
-def OffsetsDetermineLength (k : Key) (hist : List Ev) : Prop :=
-  ∀ b ∈ kfrags k hist, ∀ b' ∈ kfrags k hist, b.primary.fragOff = b'.primary.fragOff → rangeOf b = rangeOf b'
-
-private theorem phase_of_run (cfg : RCfg) (k : Key) (P : Bytes) (hist : List Ev)
-    (hcons : ∀ b ∈ kfrags k hist, ConsFrag cfg k P b) (hoff : OffsetsDetermineLength k hist) :
-    Phase P (kfrags k hist) (proj k (run cfg AState.init hist)) := by
-  have := (run_inv cfg k P hist AState.init [] tableWf_init (Or.inl (invA_init P k))
-    (by simpa using hcons) (by simpa [OffsetsDetermineLength] using hoff)).2
+private theorem inv_of_run (cfg : RCfg) (k : Key) (P : Bytes) (hist : List Ev)
+    (hcons : ∀ b ∈ kfrags k hist, ConsFrag cfg k P b) :
+    Inv cfg P (kfrags k hist) (proj k (run cfg AState.init hist)) := by
+  have := (run_inv cfg k P hist AState.init [] tableWf_init (inv_init cfg P k) (by simpa using hcons)).2
   simpa using this
 
 /-- **C06_no_early.** Whatever else is received and whenever the idle callbacks run: if a bundle of key
     `k` has been delivered (or is scheduled for re-injection), the fragments of `k` received so far
     cover [0, total). -/
 theorem C06_no_early (cfg : RCfg) (k : Key) (P : Bytes) (hist : List Ev)
-    (hcons : ∀ b ∈ kfrags k hist, ConsFrag cfg k P b) (hoff : OffsetsDetermineLength k hist)
+    (hcons : ∀ b ∈ kfrags k hist, ConsFrag cfg k P b)
     (hd : deliveredOf k (run cfg AState.init hist) ≠ [] ∨ pendingOf k (run cfg AState.init hist) ≠ []) :
-    covered ((kfrags k hist).map rangeOf) P.length := by
-  rcases phase_of_run cfg k P hist hcons hoff with hA | hB
-  · rcases hd with h | h
-    · exact absurd hA.del h
-    · exact absurd hA.pend h
-  · exact hB.cov
+    covered ((kfrags k hist).map rangeOf) P.length :=
+  (inv_of_run cfg k P hist hcons).early (hd.symm)
 
 /-- the same at the level of one step, with no assumption on the fragments at all: the reassembly
     step schedules a bundle only when the ranges spliced into the entry (this one included) are
     exactly [0, total) -/
-theorem C06_no_early_step (cur : Option Entry) (b rb : FBundle) (d : Bytes) (hd : b.payload = some d)
-    (h : (reasmEntry cur b).2 = .cleared (some rb)) :
+theorem C06_no_early_step (crcFn : Nat → Bytes → Bytes) (cur : Option Entry) (b rb : FBundle) (d : Bytes)
+    (hd : b.payload = some d) (h : (reasmEntry crcFn cur b).2 = .cleared (some rb)) :
     exact ((b.primary.fragOff, d.length) :: (entryOf cur b).ranges) (entryOf cur b).total := by
   simp only [reasmEntry, hd, finish] at h
   split at h
   · rename_i hx; exact (exactB_iff _ _).1 hx
   · simp at h
 
-/-- **C06_complete_partial.** (Full statement: `C06_complete_statement`; it fails on the excluded
-    region, see `C06_complete_counterexample`. Excluded region, as an explicit decidable hypothesis:
-    two distinct fragments of the bundle share an offset — `OffsetsDetermineLength`.)
-    Let the history contain — in any order, with any duplicates, interleaved with
-    anything of other keys and with idle callbacks at any time — fragments of the bundle `k` that are
-    consistent with the payload `P`, cover it, and of which no two distinct ones share an offset.
-    Then exactly one bundle of key `k` has been delivered or awaits its idle callback; it is the
-    bundle synthesised from the first offset-0 fragment: payload `P`, and all other blocks those of
-    that fragment. -/
-theorem C06_complete_partial (cfg : RCfg) (k : Key) (P : Bytes) (hist : List Ev)
-    (hcons : ∀ b ∈ kfrags k hist, ConsFrag cfg k P b) (hoff : OffsetsDetermineLength k hist)
-    (hne : kfrags k hist ≠ []) (hcov : covered ((kfrags k hist).map rangeOf) P.length) :
-    ∃ f0, firstZero (kfrags k hist) = some f0 ∧
-      (norm (synth (norm f0) P)).payload = some P ∧
-      (norm (synth (norm f0) P)).blocks.filter (fun x => x.c.blockNum != 1)
-        = (norm f0).blocks.filter (fun x => x.c.blockNum != 1) ∧
-      ((pendingOf k (run cfg AState.init hist) = [synth (norm f0) P] ∧ deliveredOf k (run cfg AState.init hist) = []) ∨
-       (pendingOf k (run cfg AState.init hist) = [] ∧
-        deliveredOf k (run cfg AState.init hist) = [norm (synth (norm f0) P)])) := by
-  rcases phase_of_run cfg k P hist hcons hoff with hA | hB
-  · exfalso
-    obtain ⟨e, _, hok, _, hnx⟩ := hA.entry hne
-    apply hnx
-    refine ⟨(covered_congr hok.ranges _).2 hcov, ?_⟩
-    intro r hr _
-    obtain ⟨b, hb, rfl⟩ := List.mem_map.1 ((hok.ranges r).1 hr)
-    obtain ⟨d, hd, hle, _⟩ := (hcons b hb).data
-    simpa [rangeOf, hd] using hle
-  · obtain ⟨f0, hf0, hone⟩ := hB.one
-    have hc := hcons f0 (firstZero_some_mem hf0).1
-    obtain ⟨d0, hd0, _, _⟩ := hc.data
-    refine ⟨f0, hf0, synth_payload f0 d0 P hd0, synth_ext_blocks f0 P, ?_⟩
-    rcases hone with ⟨h1, h2, _⟩ | ⟨h1, h2, _⟩
-    · exact Or.inl ⟨h1, h2⟩
-    · exact Or.inr ⟨h1, h2⟩
+/-- what every correctly synthesised bundle contains: payload `P`, and all other blocks those of the
+    offset-0 fragment it was built from -/
+theorem C06_synth_content (cfg : RCfg) (k : Key) (P : Bytes) (fr : List FBundle) (rb : FBundle)
+    (hcons : ∀ b ∈ fr, ConsFrag cfg k P b) (h : Synth cfg P fr rb) :
+    (norm rb).payload = some P ∧
+    ∃ f0 ∈ fr, f0.primary.fragOff = 0 ∧
+      (norm rb).blocks.filter (fun x => x.c.blockNum != 1) = (norm f0).blocks.filter (fun x => x.c.blockNum != 1) := by
+  obtain ⟨f0, hm, h0, rfl⟩ := h
+  obtain ⟨d0, hd0, _, _⟩ := (hcons f0 hm).data
+  exact ⟨synth_payload cfg.crcFn f0 d0 P hd0, f0, hm, h0, synth_ext_blocks cfg.crcFn f0 P⟩
 
-/-- … hence, once the loop is quiescent, exactly one delivery. -/
-theorem C06_complete_partial_quiescent (cfg : RCfg) (k : Key) (P : Bytes) (hist : List Ev)
-    (hcons : ∀ b ∈ kfrags k hist, ConsFrag cfg k P b) (hoff : OffsetsDetermineLength k hist)
+/-- **C06_complete (full strength since fix dc31f2b).** Let the history contain — in any order, with
+    any duplicates, overlapping or not, interleaved with anything of other keys and with idle
+    callbacks at any time — fragments of the bundle `k` that cover the payload `P`.
+    The only hypothesis left is `ConsFrag` for the fragments of `k` in the history: each really is a
+    fragment of that bundle (fragment flag, total length |P|, its data is the slice of `P` at its
+    offset) and passes the gates in front of reassembly (CRCs valid, not our own source, routed to
+    'deliver', unique block numbers). Nothing is assumed about offsets or lengths.
+    Then exactly one bundle of key `k` has been delivered, or none yet and at least one re-injection
+    awaits its idle callback; every such bundle is synthesised from an offset-0 fragment received
+    (`Synth`), hence has payload `P` and that fragment's other blocks (`C06_synth_content`). -/
+theorem C06_complete (cfg : RCfg) (k : Key) (P : Bytes) (hist : List Ev)
+    (hcons : ∀ b ∈ kfrags k hist, ConsFrag cfg k P b)
+    (hne : kfrags k hist ≠ []) (hcov : covered ((kfrags k hist).map rangeOf) P.length) :
+    (∃ rb, Synth cfg P (kfrags k hist) rb ∧ deliveredOf k (run cfg AState.init hist) = [norm rb]) ∨
+    (deliveredOf k (run cfg AState.init hist) = [] ∧ pendingOf k (run cfg AState.init hist) ≠ [] ∧
+      ∀ rb ∈ pendingOf k (run cfg AState.init hist), Synth cfg P (kfrags k hist) rb) := by
+  have hI := inv_of_run cfg k P hist hcons
+  rcases hI.del with hd | ⟨rb, h1, h2⟩
+  · right
+    refine ⟨hd, ?_, hI.pend⟩
+    intro hp
+    rcases hI.fresh hp hd with ⟨h, _⟩ | ⟨e, he, hsup⟩
+    · exact hne h
+    · obtain ⟨hG, hnx⟩ := hI.entry e he
+      apply hnx
+      refine ⟨covered_mono hsup _ hcov, ?_⟩
+      intro r hr _
+      obtain ⟨b, hb, rfl⟩ := List.mem_map.1 (hG.sub r hr)
+      obtain ⟨d, hd', hle, _⟩ := (hcons b hb).data
+      simpa [rangeOf, hd'] using hle
+  · exact Or.inl ⟨rb, h1, h2⟩
+
+/-- … hence, once the loop is quiescent, exactly one delivery: payload `P`, extension blocks of an
+    offset-0 fragment received. -/
+theorem C06_complete_quiescent (cfg : RCfg) (k : Key) (P : Bytes) (hist : List Ev)
+    (hcons : ∀ b ∈ kfrags k hist, ConsFrag cfg k P b)
     (hne : kfrags k hist ≠ []) (hcov : covered ((kfrags k hist).map rangeOf) P.length)
     (hq : (run cfg AState.init hist).pending = []) :
-    ∃ R, deliveredOf k (run cfg AState.init hist) = [R] ∧ R.payload = some P := by
-  obtain ⟨f0, _, hp, _, h⟩ := C06_complete_partial cfg k P hist hcons hoff hne hcov
-  rcases h with ⟨h1, _⟩ | ⟨_, h2⟩
-  · simp [pendingOf, hq] at h1
-  · exact ⟨_, h2, hp⟩
+    ∃ R, deliveredOf k (run cfg AState.init hist) = [R] ∧ R.payload = some P ∧
+      ∃ f0 ∈ kfrags k hist, f0.primary.fragOff = 0 ∧
+        R.blocks.filter (fun x => x.c.blockNum != 1) = (norm f0).blocks.filter (fun x => x.c.blockNum != 1) := by
+  rcases C06_complete cfg k P hist hcons hne hcov with ⟨rb, h1, h2⟩ | ⟨_, hp, _⟩
+  · obtain ⟨c1, c2⟩ := C06_synth_content cfg k P _ rb hcons h1
+    exact ⟨norm rb, h2, c1, c2⟩
+  · simp [pendingOf, hq] at hp
 
 /-- **C06_no_mix (frame).** An event that is not about key `k` — a bundle or fragment of another
     source / creation time / sequence number, or the re-injection of another bundle — leaves
@@ -122,17 +123,18 @@ theorem C06_cover_decide (rs : List Range) (t : Nat) :
     (coveredB rs t = true ↔ covered rs t) ∧ (exactB rs t = true ↔ exact rs t) :=
   ⟨coveredB_iff rs t, exactB_iff rs t⟩
 
-/-! ### concrete instances: non-vacuity and the same-offset counterexample -/
+/-! ### concrete instances: non-vacuity, and the former same-offset counterexample now delivered -/
 
-def cfgR : RCfg := { nodeId := .dtn "//node/".toUTF8.toList, deliver := fun _ => true, crcOk := fun _ => true }
+def cfgR : RCfg := { nodeId := .dtn "//node/".toUTF8.toList, deliver := fun _ => true, crcOk := fun _ => true,
+                     crcFn := fun t _ => zeros (crcWidth t) }
 def PW : Bytes := (List.range 30).map UInt8.ofNat
 def srcW : Eid := .dtn "//src/".toUTF8.toList
 def kW : Key := ⟨srcW, 9, 1⟩
 
-/-- fragment [off, off+len) of the 30-octet payload `PW`, as decoded from the wire -/
+/-- fragment [off, off+len) of the 30-octet payload `PW`, as decoded from the wire; CRC-16 primary -/
 def mkFrag (src : Eid) (off len : Nat) : FBundle :=
-  { primary := { flags := 1, dest := .dtn "//dst/svc".toUTF8.toList, src := src, ts := ⟨9, 1⟩,
-                 lifetime := 100000, fragOff := off, totalLen := 30 },
+  { primary := { flags := 1, crcType := 1, dest := .dtn "//dst/svc".toUTF8.toList, src := src, ts := ⟨9, 1⟩,
+                 lifetime := 100000, fragOff := off, totalLen := 30, crc := some [0, 0] },
     blocks := [{ c := { typeCode := 7, blockNum := 2, flags := 1, btsd := some [off.toUInt8] },
                  layer := some [off.toUInt8] },
                { c := { typeCode := 1, blockNum := 1, btsd := some ((PW.drop off).take len) },
@@ -154,18 +156,28 @@ private theorem consFrag_mk (off len : Nat) (h : off + len ≤ 30) : ConsFrag cf
   · show (PW.drop off).take len = (PW.drop off).take ((PW.drop off).take len).length
     rw [hl]
 
-/-- arrival order [10,30) · fragment of another bundle · [0,10) · duplicate [10,30) · idle -/
+/-- arrival order [10,30) · fragment of another bundle · [0,10) · duplicate [10,30) · idle · idle -/
 def histOk : List Ev :=
   [.recv (mkFrag srcW 10 20), .recv (mkFrag (.dtn "//other/".toUTF8.toList) 0 30), .recv (mkFrag srcW 0 10),
    .recv (mkFrag srcW 10 20), .idle 0, .idle 0]
 
-/-- non-vacuity of `C06_complete_partial` / `C06_no_early`: hypotheses hold, two bundles delivered, ours once -/
-example : (∀ b ∈ kfrags kW histOk, ConsFrag cfgR kW PW b) ∧ OffsetsDetermineLength kW histOk ∧
+/-- arrival order [0,10) · [0,20) · [20,30): distinct fragments sharing offset 0 (the witness of the
+    former defect: before fix dc31f2b the second was dropped as "already seen" and nothing was ever
+    delivered) -/
+def histBad : List Ev :=
+  [.recv (mkFrag srcW 0 10), .recv (mkFrag srcW 0 20), .recv (mkFrag srcW 20 10), .idle 0]
+
+/-- the same three fragments with the long one first -/
+def histGood : List Ev :=
+  [.recv (mkFrag srcW 0 20), .recv (mkFrag srcW 0 10), .recv (mkFrag srcW 20 10), .idle 0]
+
+/-- non-vacuity of `C06_complete` / `C06_no_early`: hypotheses hold, two bundles delivered, ours once -/
+example : (∀ b ∈ kfrags kW histOk, ConsFrag cfgR kW PW b) ∧
     kfrags kW histOk ≠ [] ∧ covered ((kfrags kW histOk).map rangeOf) PW.length ∧
     (run cfgR AState.init histOk).delivered.length = 2 ∧
-    deliveredOf kW (run cfgR AState.init histOk) = [norm (synth (norm (mkFrag srcW 0 10)) PW)] := by
+    deliveredOf kW (run cfgR AState.init histOk) = [norm (synth cfgR.crcFn (norm (mkFrag srcW 0 10)) PW)] := by
   have hk : kfrags kW histOk = [mkFrag srcW 10 20, mkFrag srcW 0 10, mkFrag srcW 10 20] := by decide +kernel
-  refine ⟨?_, ?_, by rw [hk]; simp, ?_, by decide +kernel, by decide +kernel⟩
+  refine ⟨?_, by rw [hk]; simp, ?_, by decide +kernel, by decide +kernel⟩
   · intro b hb
     rw [hk] at hb
     simp only [List.mem_cons, List.not_mem_nil, or_false] at hb
@@ -173,61 +185,44 @@ example : (∀ b ∈ kfrags kW histOk, ConsFrag cfgR kW PW b) ∧ OffsetsDetermi
     · exact consFrag_mk 10 20 (by omega)
     · exact consFrag_mk 0 10 (by omega)
     · exact consFrag_mk 10 20 (by omega)
-  · unfold OffsetsDetermineLength; rw [hk]; decide +kernel
   · rw [hk]; exact (coveredB_iff _ _).1 (by decide +kernel)
 
-/-- **Full statement (does not hold).** `C06_complete_partial` without the hypothesis that distinct fragments
-    never share an offset: "for any set of fragments that together cover the payload, overlapping
-    allowed, in any order". -/
-def C06_complete_statement : Prop :=
-  ∀ (cfg : RCfg) (k : Key) (P : Bytes) (hist : List Ev),
-    (∀ b ∈ kfrags k hist, ConsFrag cfg k P b) → kfrags k hist ≠ [] →
-    covered ((kfrags k hist).map rangeOf) P.length → (run cfg AState.init hist).pending = [] →
-    ∃ R, deliveredOf k (run cfg AState.init hist) = [R] ∧ R.payload = some P
-
-/-- arrival order [0,10) · [0,20) · [20,30): the second fragment has the identity (source, time,
-    sequence, offset 0, total 30) of the first and is dropped as "already seen"; [10,20) never arrives -/
-def histBad : List Ev :=
-  [.recv (mkFrag srcW 0 10), .recv (mkFrag srcW 0 20), .recv (mkFrag srcW 20 10), .idle 0]
-
-/-- the same three fragments with the long one first are reassembled at once -/
-def histGood : List Ev :=
-  [.recv (mkFrag srcW 0 20), .recv (mkFrag srcW 0 10), .recv (mkFrag srcW 20 10), .idle 0]
-
-theorem C06_complete_counterexample : ¬ C06_complete_statement := by
-  intro h
+/-- … and on the former counterexample: both arrival orders of the overlapping set deliver `PW`;
+    the extension blocks are those of the offset-0 fragment accepted last before completion -/
+theorem C06_complete_overlap_instances :
+    (deliveredOf kW (run cfgR AState.init histBad)).map FBundle.payload = [some PW] ∧
+    (deliveredOf kW (run cfgR AState.init histGood)).map FBundle.payload = [some PW] ∧
+    (∀ b ∈ kfrags kW histBad, ConsFrag cfgR kW PW b) := by
+  refine ⟨by decide +kernel, by decide +kernel, ?_⟩
   have hk : kfrags kW histBad = [mkFrag srcW 0 10, mkFrag srcW 0 20, mkFrag srcW 20 10] := by decide +kernel
-  have hc : ∀ b ∈ kfrags kW histBad, ConsFrag cfgR kW PW b := by
-    intro b hb
-    rw [hk] at hb
-    simp only [List.mem_cons, List.not_mem_nil, or_false] at hb
-    rcases hb with rfl | rfl | rfl
-    · exact consFrag_mk 0 10 (by omega)
-    · exact consFrag_mk 0 20 (by omega)
-    · exact consFrag_mk 20 10 (by omega)
-  obtain ⟨R, hR, _⟩ := h cfgR kW PW histBad hc (by rw [hk]; simp)
-    (by rw [hk]; exact (coveredB_iff _ _).1 (by decide +kernel)) (by decide +kernel)
-  have : deliveredOf kW (run cfgR AState.init histBad) = [] := by decide +kernel
-  rw [this] at hR
-  cases hR
+  intro b hb
+  rw [hk] at hb
+  simp only [List.mem_cons, List.not_mem_nil, or_false] at hb
+  rcases hb with rfl | rfl | rfl
+  · exact consFrag_mk 0 10 (by omega)
+  · exact consFrag_mk 0 20 (by omega)
+  · exact consFrag_mk 20 10 (by omega)
 
-/-- order dependence made explicit: same fragment set, other order ⇒ delivered -/
-theorem C06_complete_counterexample_order :
-    deliveredOf kW (run cfgR AState.init histBad) = [] ∧
-    (deliveredOf kW (run cfgR AState.init histGood)).map FBundle.payload = [some PW] := by
-  constructor <;> decide +kernel
+/-- **What reassembly does to the primary block (after fix dffcae7; formerly D28).** The synthesised
+    bundle's primary block is the offset-0 fragment's with the fragment flag cleared and the CRC value
+    recomputed: every other field — in particular the CRC type — is kept, so the primary block is the
+    original's (whose fragments differ from it only in flag, offset, total length and CRC value), and a
+    BIB whose AAD covers the primary block verifies again on the reassembled bundle. -/
+theorem C06_synth_primary (crcFn : Nat → Bytes → Bytes) (f : FBundle) (d : Bytes) :
+    (synth crcFn f d).primary.crcType = f.primary.crcType ∧
+    (synth crcFn f d).primary.flags = clearFragFlag f.primary.flags ∧
+    (synth crcFn f d).primary.version = f.primary.version ∧ (synth crcFn f d).primary.dest = f.primary.dest ∧
+    (synth crcFn f d).primary.src = f.primary.src ∧ (synth crcFn f d).primary.rpt = f.primary.rpt ∧
+    (synth crcFn f d).primary.ts = f.primary.ts ∧ (synth crcFn f d).primary.lifetime = f.primary.lifetime ∧
+    (synth crcFn f d).primary = updPrimary crcFn { f.primary with flags := clearFragFlag f.primary.flags, crc := none } := by
+  have h : (synth crcFn f d).primary
+      = updPrimary crcFn { f.primary with flags := clearFragFlag f.primary.flags, crc := none } := rfl
+  rw [h]
+  unfold updPrimary
+  split <;> exact ⟨rfl, rfl, rfl, rfl, rfl, rfl, rfl, rfl, rfl⟩
 
-/-- **What reassembly does to the primary block (D28).** The synthesised bundle's primary block is the
-    offset-0 fragment's with the fragment flag cleared, CRC type none and no CRC value — not the
-    original's when that carried a CRC. A BIB whose AAD covers the primary block therefore cannot
-    verify on the reassembled bundle (the harness exhibits this on the real code with security on). -/
-theorem C06_synth_primary (f : FBundle) (d : Bytes) :
-    (synth f d).primary = { f.primary with flags := clearFragFlag f.primary.flags, crcType := 0, crc := none } ∧
-    (∀ p : Primary, p.crcType ≠ 0 → (synth f d).primary ≠ p) := by
-  refine ⟨rfl, ?_⟩
-  intro p hp h
-  apply hp
-  rw [← h]; rfl
+example : (deliveredOf kW (run cfgR AState.init histOk)).map (fun b => (b.primary.crcType, b.primary.crc, b.primary.flags))
+    = [(1, some [0, 0], 0)] := by decide +kernel
 
 /-- flag bits, payload block number and the receive-chain orders the model relies on: reassembly
     (10) runs after routing (-1, 0) and before the BPSec steps (19, 20) and the application step (30) -/
